@@ -271,4 +271,93 @@ def r3_nothing_dropped(a, tier):
     return rep
 
 
-RULES = [r_chain, r1_printers, r2_roundtrip, r3_nothing_dropped]
+def r4_display_width(a, tier):
+    rep = RuleReport(
+        'C13.R4',
+        'tracks of consistent width: in tatsu/railroads the width of a row (one str of a block of rails) is always taken with the '
+        'display-width function ulen, never with len - len() is applied only to blocks (their height), to constants used for '
+        'slicing, and to pattern texts; rows are the elements (index or loop variable) of anything typed Rails / list[str], inferred '
+        'from annotations, list displays and calls of functions returning Rails',
+        floor=8,
+    )
+    mods = [m for m in a.p.modules.values() if m.name.startswith('tatsu.railroads.') and m.name.split('.')[-1] in ('railmath', 'walker')]
+    if len(mods) < 2:
+        raise AnalysisError('tatsu.railroads.railmath / walker not found')
+    rails_ann = ('Rails', 'list[str]')
+    returns_rails = {f.name for m in mods for f in a.p.functions.values() if f.module is m and f.node.returns is not None
+                     and norm(f.node.returns) in rails_ann}
+    n_ulen = 0
+    for m in mods:
+        for f in [f for f in a.p.functions.values() if f.module is m]:
+            rails_vars = {x.arg for x in ast.walk(f.node.args) if isinstance(x, ast.arg) and x.annotation is not None
+                          and (norm(x.annotation) in rails_ann)}
+            star_rails = {f.node.args.vararg.arg} if f.node.args.vararg is not None and f.node.args.vararg.annotation is not None \
+                and norm(f.node.args.vararg.annotation) in rails_ann else set()
+
+            def is_rails(e) -> bool:
+                if isinstance(e, ast.Name):
+                    return e.id in rails_vars
+                if isinstance(e, ast.Subscript):
+                    if isinstance(e.slice, ast.Slice):
+                        return is_rails(e.value)
+                    return isinstance(e.value, ast.Name) and e.value.id in star_rails
+                if isinstance(e, (ast.List, ast.ListComp)):
+                    return True
+                if isinstance(e, ast.BinOp) and isinstance(e.op, (ast.Add, ast.Mult)):
+                    return is_rails(e.left) or is_rails(e.right)
+                if isinstance(e, ast.Call):
+                    return dotted(e.func).split('.')[-1] in returns_rails or (dotted(e.func) in ('list', 'reversed') and e.args and is_rails(e.args[0]))
+                return False
+            changed = True
+            while changed:
+                changed = False
+                for n in walk_no_defs(f.node):
+                    tg = None
+                    if isinstance(n, ast.Assign) and len(n.targets) == 1 and isinstance(n.targets[0], ast.Name):
+                        tg, v = n.targets[0].id, n.value
+                    elif isinstance(n, ast.AugAssign) and isinstance(n.target, ast.Name):
+                        tg, v = n.target.id, n.value
+                    elif isinstance(n, ast.AnnAssign) and isinstance(n.target, ast.Name) and norm(n.annotation) in rails_ann:
+                        tg, v = n.target.id, ast.List(elts=[])
+                    if tg and tg not in rails_vars and v is not None and is_rails(v):
+                        rails_vars.add(tg)
+                        changed = True
+            rows: set[str] = set()
+            for n in walk_no_defs(f.node):
+                its = []
+                if isinstance(n, (ast.For, ast.comprehension)):
+                    its = [(n.target, n.iter)]
+                for tgt, it in its:
+                    srcs = [it]
+                    if isinstance(it, ast.Call) and dotted(it.func) in ('zip', 'enumerate', 'reversed'):
+                        srcs = list(it.args)
+                    names = [x for x in ast.walk(tgt) if isinstance(x, ast.Name)]
+                    if isinstance(it, ast.Call) and dotted(it.func) == 'zip' and isinstance(tgt, ast.Tuple):
+                        for t_, s_ in zip(tgt.elts, it.args):
+                            if isinstance(t_, ast.Name) and is_rails(s_):
+                                rows.add(t_.id)
+                    elif isinstance(it, ast.Call) and dotted(it.func) == 'enumerate' and isinstance(tgt, ast.Tuple) and len(tgt.elts) == 2:
+                        if isinstance(tgt.elts[1], ast.Name) and it.args and is_rails(it.args[0]):
+                            rows.add(tgt.elts[1].id)
+                    elif any(is_rails(s_) for s_ in srcs) and len(names) == 1 and isinstance(tgt, ast.Name):
+                        rows.add(tgt.id)
+
+            def is_row(e) -> bool:
+                if isinstance(e, ast.Name):
+                    return e.id in rows
+                return isinstance(e, ast.Subscript) and not isinstance(e.slice, ast.Slice) and is_rails(e.value)
+            for n in walk_no_defs(f.node):
+                if isinstance(n, ast.Call) and isinstance(n.func, ast.Name) and n.args:
+                    if n.func.id == 'ulen':
+                        n_ulen += 1
+                        rep.add({'function': f.qualname, 'width_of': norm(n.args[0]), 'with': 'ulen'})
+                    elif n.func.id == 'len' and is_row(n.args[0]):
+                        rep.add({'function': f.qualname, 'width_of': norm(n.args[0]), 'with': 'len'})
+                        rep.fail(f.qualname, f'len-of-row:{norm(n.args[0])}', f'`{norm(n)}` measures a row of rails in code points; rows are padded '
+                                 f'and compared by display width (ulen): with an East Asian wide or fullwidth character in that row the '
+                                 f'filler is too short and the tracks no longer have one width (assert_one_length fails / ragged output)',
+                                 f'{f.module.relpath}:{n.lineno}')
+    return rep
+
+
+RULES = [r_chain, r1_printers, r2_roundtrip, r3_nothing_dropped, r4_display_width]
